@@ -121,12 +121,30 @@ func (pass *AnonymousStructsToNamed) processDisjunction(pkg string, parentName s
 func (pass *AnonymousStructsToNamed) processIntersection(pkg string, parentName string, def ast.Type) ast.Type {
 	for i, branch := range def.Intersection.Branches {
 		// the structs directly listed in an intersection hold its own fields:
-		// they are left where they are.
+		// they are left where they are, but the types of their fields are explored.
 		if branch.IsStruct() {
+			def.Intersection.Branches[i] = pass.processInlineStruct(pkg, parentName, branch)
 			continue
 		}
 
 		def.Intersection.Branches[i] = pass.processType(pkg, parentName, branch)
+	}
+
+	return def
+}
+
+// processInlineStruct explores the fields of a struct that stays where it is
+// (a struct listed in an intersection, and the structs directly nested in it).
+func (pass *AnonymousStructsToNamed) processInlineStruct(pkg string, parentName string, def ast.Type) ast.Type {
+	for i, field := range def.Struct.Fields {
+		name := parentName + tools.UpperCamelCase(field.Name)
+
+		if field.Type.IsStruct() {
+			def.Struct.Fields[i].Type = pass.processInlineStruct(pkg, name, field.Type)
+			continue
+		}
+
+		def.Struct.Fields[i].Type = pass.processType(pkg, name, field.Type)
 	}
 
 	return def
